@@ -34,6 +34,9 @@ func genC04(t *rapid.T, all bool) c04Case {
 	inits := []uint64{0, 0, 1, c.Seg - 1, c.Seg, c.Seg + 1, 2*c.Seg + 2}
 	c.Prog = pgen.Gen(t, pgen.Opts{MinMods: 1, MaxMods: 4, InitialBlocks: inits, ForceStoreOutput: true})
 	c.Run = genRun(t, c.Prog, c.Seg, c.Head)
+	if c.Run.TailLag > 0 && rapid.Bool().Draw(t, "finalonly") {
+		c.Run.FinalOnly = true
+	}
 	// bias towards what the statement is about: production requests whose range is back-filled entirely or
 	// crosses the hand-off, stops off the segment boundaries, outputs that are empty on some blocks
 	if rapid.IntRange(0, 3).Draw(t, "bias") > 0 {
@@ -183,6 +186,18 @@ func checkC04(c c04Case) (*ev.Failure, c04Stats) {
 	if end == 0 {
 		end = c.Head + 1
 	}
+	if spec.FinalOnly {
+		// only the blocks that become final during the run are delivered
+		lastFinal := uint64(0)
+		for _, stp := range chainFor(spec, c.Head) {
+			if (stp.Step == bstream.StepNewIrreversible || stp.Step == bstream.StepIrreversible) && stp.Num > lastFinal {
+				lastFinal = stp.Num
+			}
+		}
+		if lastFinal+1 < end {
+			end = lastFinal + 1
+		}
+	}
 	msgs := S.res.DataMessages()
 	delivered := map[uint64]*world.Data{}
 	var prev int64 = -1
@@ -258,7 +273,7 @@ func checkC04(c c04Case) (*ev.Failure, c04Stats) {
 			rdir = newDir()
 		}
 		cfg := world.Config{Dir: rdir, Seg: c.Seg, Workers: spec.Workers, Final: spec.Final, Steps: chainFor(spec, c.Head), JobOrder: spec.JobOrder}
-		R := world.Run(prog.Modules(), world.Request{Prod: spec.Prod, Start: int64(spec.Start), Stop: spec.Stop, Output: spec.Output, Cursor: msgs[i].Cursor}, cfg)
+		R := world.Run(prog.Modules(), world.Request{Prod: spec.Prod, Start: int64(spec.Start), Stop: spec.Stop, Output: spec.Output, Cursor: msgs[i].Cursor, FinalBlocksOnly: spec.FinalOnly}, cfg)
 		if c.ResumeFresh {
 			os.RemoveAll(rdir)
 		}
@@ -305,6 +320,9 @@ func runC04(t *testing.T, test string, all bool) {
 		}
 		if c.ResumeFresh {
 			cl = append(cl, "resume-on-empty-cache")
+		}
+		if c.Run.FinalOnly {
+			cl = append(cl, "final-blocks-only")
 		}
 		r.Count("resumed-requests", st.resumed)
 		r.Case(c, st.crossesHandoff && st.middleResume, cl...)
